@@ -557,7 +557,8 @@ fn answer_inner(line: &str) -> String {
                 (Ok(x), Ok(y)) => {
                     let x = if ex { some_empty(x) } else { x };
                     let y = if ey { some_empty(y) } else { y };
-                    format!("ok {}", b(x.matches(&y, ra, rb)))
+                    // second column: the left operand matched against ITSELF (the same object, not an equal copy)
+                    format!("ok {} {}", b(x.matches(&y, ra, rb)), b(x.matches(&x, ra, rb)))
                 }
                 _ => "err".to_string(),
             }
@@ -577,7 +578,13 @@ fn answer_inner(line: &str) -> String {
                     }
                     // a LanguageIdentifier matched against a Locale (through AsRef<LanguageIdentifier>)
                     let li: LanguageIdentifier = x.id.clone();
-                    format!("ok {} {}", b(x.matches(&y, ra, rb)), b(li.matches(&y, ra, rb)))
+                    format!(
+                        "ok {} {} {} {}",
+                        b(x.matches(&y, ra, rb)),
+                        b(li.matches(&y, ra, rb)),
+                        b(x.matches(&x, ra, rb)),
+                        b(y.matches(&y, ra, rb))
+                    )
                 }
                 _ => "err".to_string(),
             }
@@ -615,7 +622,7 @@ fn answer_inner(line: &str) -> String {
             let y = arg!(1);
             match (Locale::from_bytes(&x), Locale::from_bytes(&y)) {
                 (Ok(x), Ok(y)) => format!(
-                    "ok eq={} cmp={} rcmp={} he={} se={} lieq={} licmp={} xi={} yi={}",
+                    "ok eq={} cmp={} rcmp={} he={} se={} lieq={} licmp={} xi={} yi={} self={}{}",
                     b(x == y),
                     ord(x.cmp(&y)),
                     ord(y.cmp(&x)),
@@ -625,6 +632,8 @@ fn answer_inner(line: &str) -> String {
                     ord(x.id.cmp(&y.id)),
                     render_li(&x.id),
                     render_li(&y.id),
+                    b(x == x),
+                    ord(x.cmp(&x)),
                 ),
                 _ => "err".to_string(),
             }
